@@ -53,6 +53,31 @@ CLAIMED = {
                 "differential on the live /proc, not proved (no procfs tree model). Known finding F-M-nonabs-magiclink recorded.",
         "technique": "Coq proof (all responses; history-indexed Hoare judgement for the follow site) + resolver differential on live /proc + trace replay",
     },
+    "C06": {
+        "text": "Machine-checked theorems over all kernel answers: ProcfsHandle::open is an instance of a lookup parametrised by its "
+                "verification routines, and for ANY verification routine that fails the lookup returns no object (so every returned "
+                "object passed the mount-id + fs-type comparison against the handle's own mount); every step of the emulated walk "
+                "is verified likewise; the kernel resolver is confined by RESOLVE_NO_XDEV|BENEATH|NO_MAGICLINKS on every call; "
+                "comparisons with an unknown mount id fail closed. Runtime in a private mount namespace: subsets of real tmpfs / "
+                "bind over-mounts (foreign file, other procfs file/dir, on magic-links themselves) x 5 handle kinds x bases x both "
+                "resolvers, plus one mount racing at system-call boundaries of non-following opens; oracle: fs type, marker, "
+                "content, EXDEV when the mount is visible and crossed, private instances unaffected.",
+        "note": COMMON_NOTE + "That equal mount ids mean 'same mount, not an over-mount' is the kernel's statx contract (exercised by the "
+                "runs, not proved). Over-mounts on /proc/self and /proc/thread-self themselves (the symlinks) are not generated.",
+        "technique": "Coq proof (parametric in the verification routine, all responses) + real over-mount runs in a mount namespace",
+    },
+    "C08": {
+        "text": "Machine-checked theorems over all kernel answers: a handle that is not masked never retries; two levels of the "
+                "masked-handle retry are all any lookup uses (popen with any fuel >= 2 equals popen with fuel 2), so at most one extra "
+                "procfs handle exists; descriptor balance of open/readlink including the extra handle. Runtime: 10 real procfs "
+                "configurations in a private mount namespace (root / uid 2000 x default, hidepid=1/2/ptraceable, subset=pid x "
+                "constructors available / denied) x both resolvers x bases x {existing, missing, masked} paths: ENOENT for missing "
+                "paths, constructor attempts <= 3, new handles <= 1, syscall count and wall time bounded, descriptor table unchanged; "
+                "recorded traces replayed through the model.",
+        "note": COMMON_NOTE + "Found and repaired F-D (the retry recursed on a masked handle; fix: commit in /repo, fact RETRY_ONLY_UNMASKED "
+                "read from the source by T0). Which entries a given /proc masks is the kernel's decision (exercised, not modelled).",
+        "technique": "Coq proof (program equivalence for all fuels/answers + fd balance) + runs on real hidepid/subset procfs instances + trace replay",
+    },
     "C09": {
         "text": "Machine-checked theorems over all kernel answers: reopen with creation flags never succeeds; the magic-link name is "
                 "fd/<decimal> for every descriptor >= 0 (0 included); the only possibly-following open is the verified one; the "
